@@ -81,6 +81,12 @@ class ConfigNodeMeta(NamespaceableMeta):
                         setattr(value, '_' + arg_name, kwargs[arg_name])
                         if arg_name == 'priority' and kwargs[arg_name] is not None:
                             value._propagate_priority()
+                # explicit flags and metadata given together with an already constructed node (a tagged explicit null)
+                for arg_name in ['delete', 'allow_new', 'safe']:
+                    if kwargs.get(arg_name) is not None:
+                        setattr(value, '_' + arg_name, kwargs[arg_name])
+                if kwargs.get('metadata'):
+                    value._metadata = { **value._metadata, **kwargs['metadata'] }
                 if any(k.startswith('implicit_') for k in kwargs.keys()):
                     value._propagate_implicit_values()
 
